@@ -41,6 +41,7 @@ structure L where
   sock : Sock := .absent             -- IO.socket (and the OS socket behind it)
   reader : Rd := .absent             -- IO._inbound_thread
   ioRunning : Bool := false          -- IO._running
+  stale : Bool := false              -- IO.data_in holds the beginning of a frame of a connection that is gone
   leakedSocks : Nat := 0             -- open sockets nothing refers to any more
   leakedReaders : Nat := 0           -- running reader threads nothing refers to any more
   hbRunning : Bool := false
@@ -233,7 +234,7 @@ def ioOpenStep (connects : Bool) (acc : L × Bool) : IoStep → L × Bool
     if acc.2 then acc
     else ({ acc.1 with reader := .running,
                        leakedReaders := if acc.1.reader = .running then acc.1.leakedReaders + 1 else acc.1.leakedReaders }, false)
-  | .resetBuffer => acc
+  | .resetBuffer => if acc.2 then acc else ({ acc.1 with stale := false }, false)
   | .makePoller => acc
   | .unknown => acc
 
@@ -312,7 +313,10 @@ def openStep (o : OpenEnd) (acc : L × Bool) : OStep → L × Bool
   | .waitOpen =>
     if acc.2 then acc
     else match o with
-    | .ok => ({ acc.1 with state := open_ }, false)
+    | .ok =>
+      -- left-over bytes of the previous connection in front of the broker's Connection.Start: the handshake
+      -- never parses and the wait times out
+      if acc.1.stale then (cleanup acc.1, true) else ({ acc.1 with state := open_ }, false)
     | .connectFail => (acc.1, true)
     | .refused =>
       -- the reader records the broker's reason and sets CLOSED; the waiting check raises it after
@@ -359,6 +363,7 @@ inductive Op
   | chanReopen (id : Nat)            -- Channel.open() on the same object
   | brokerCloseConn                  -- Connection.Close from the broker
   | die                              -- the transport fails, the reader records it and exits
+  | diePartial                       -- … in the middle of an inbound frame (its first bytes stay buffered)
 deriving DecidableEq, Repr
 
 def modCh (s : L) (id : Nat) (f : Ch → Ch) : L :=
@@ -385,6 +390,8 @@ def step (s : L) : Op → Option L
   | .brokerCloseConn => if s.state = open_ then some { s with state := closed, errs := s.errs + 1 } else none
   | .die =>
     if s.reader = .running then some { s with errs := s.errs + 1, ioRunning := false, reader := .exited } else none
+  | .diePartial =>
+    if s.reader = .running then some { s with errs := s.errs + 1, ioRunning := false, reader := .exited, stale := true } else none
 
 def run (s : L) : List Op → Option L
   | [] => some s
